@@ -1,5 +1,6 @@
 import Pdpy11.Model.Defs
 import Pdpy11.Props.C11
+import Pdpy11.Props.C12
 /-
 C03  Symbol values do not depend on definition order.
 
@@ -454,5 +455,16 @@ theorem out_of_fuel_means_cycle (t : Table) (R S : Nat) (e : E) (h : eval t (e.s
   have := fuel_enough t rk R S hac hR e
   simp [h] at this
 
+
+/-! ### the lazy engine's arithmetic (`deferred.LinearPolynomial`, Model.Poly) -/
+
+open Pdpy11.Model.Poly Pdpy11.Props.C12.LinPoly in
+/-- **whatever was defined first**: two moments of an assembly (or two assemblies of the same
+definitions in a different order) know different things about the variables; if both arrive
+at a number for the same symbolic value, it is the same number — the arithmetic value -/
+theorem lazy_value_order_independent (env : Var → Int) (σ₁ σ₂ : Known)
+    (h1 : Consistent env σ₁) (h2 : Consistent env σ₂) (f₁ f₂ : Nat) (p : P) (k₁ k₂ : Int)
+    (e1 : waitP σ₁ f₁ p = .value k₁) (e2 : waitP σ₂ f₂ p = .value k₂) : k₁ = k₂ ∧ k₁ = evalP env p :=
+  ⟨waitP_deterministic env σ₁ σ₂ h1 h2 f₁ f₂ p k₁ k₂ e1 e2, (waitP_sound env σ₁ h1 f₁ p k₁ e1).symm⟩
 
 end Pdpy11.Props.C03
